@@ -200,6 +200,9 @@ class Interp:
         self.kinds = []
         self.derived_after = False
         self.ended = False
+        # datasets left behind (the source of a derivation) or taken on the side (peek): each is an object of its own,
+        # so whatever happens later to the current dataset must leave them exactly as they were
+        self.others = []
         got = check_dataset_views(self.d, "from_raw_list")
         same_rankings(got, self.model, "from_raw_list")
 
@@ -213,6 +216,13 @@ class Interp:
     def apply(self, op):
         if self.ended:
             return
+        self._apply(op)
+        for d, model, label in self.others[-4:]:
+            what = "%s, re-examined after a later %s on another Dataset object" % (label, op["op"])
+            got = check_dataset_views(d, what)
+            same_rankings(got, model, what)
+
+    def _apply(self, op):
         kind = op["op"]
         univ = self.universe()
         if kind == "remove":
@@ -280,6 +290,7 @@ class Interp:
                                     "of rankings kept)" % (r, want))
             old = check_dataset_views(self.d, "dataset after unified_dataset()")
             same_rankings(old, self.model, "dataset after unified_dataset() (must be unchanged)")
+            self.others.append((self.d, old, "the source of unified_dataset()"))
             self.d, self.model = nd, new
             got = check_dataset_views(self.d, "unified_dataset()")
             same_rankings(got, self.model, "unified_dataset()")
@@ -294,13 +305,16 @@ class Interp:
                     [lib.model_of_ranking(r) for r in rs], want, self.model))
             for k, r in enumerate(rs):
                 check_ranking_views(r, "unified_rankings()[%d]" % k)
-            ud = check_dataset_views(lib.must(self.d.unified_dataset), "unified_dataset() (peek)")
+            udo = lib.must(self.d.unified_dataset)
+            ud = check_dataset_views(udo, "unified_dataset() (peek)")
             same_rankings(ud, want, "unified_dataset() (peek)")
+            self.others.append((udo, ud, "a unified_dataset() taken earlier"))
             S = self.pick(op["mask"]) or univ[:1]
             sub = lib.must(self.d.sub_problem_from_elements, {Element(e) for e in S})
             got = check_dataset_views(sub, "sub_problem_from_elements(%s) (peek)" % S)
             same_rankings(got, lib.normalized([r2 for r2 in (oracle.project(r, set(S)) for r in self.model) if r2]),
                           "sub_problem_from_elements(%s) (peek)" % S)
+            self.others.append((sub, got, "a sub_problem_from_elements(%s) taken earlier" % S))
             old = check_dataset_views(self.d, "dataset after peeking")
             same_rankings(old, self.model, "dataset after peeking (must be unchanged)")
             self.kinds.append("peek")
@@ -342,6 +356,7 @@ class Interp:
                 raise Violation("%s raised EmptyDatasetException although %s remain" % (what, new))
             old = check_dataset_views(self.d, "dataset after %s" % what)
             same_rankings(old, self.model, "dataset after %s (must be unchanged)" % what)
+            self.others.append((self.d, old, "the source of %s" % what))
             self.d, self.model = nd, lib.normalized(new)
             got = check_dataset_views(self.d, what)
             same_rankings(got, self.model, what)
